@@ -390,6 +390,50 @@ pub fn c03() -> i32 {
         let out = explore(&scns, &cfg, &no_judge);
         rep.absorb("E: players that drop (death at every moment x lost last packets; explicit disconnect at every round): status truthfulness incl. the Disconnected clause", out, &["C03", "PANIC"], json!({"k": 0, "scenarios": n}));
     }
+    // inputs handed to spectators carry statuses too: pauses (stopped and polling) around the
+    // 60-slot ring, slow spectators, host-side drops
+    {
+        let t = rep.thorough();
+        let mut scns = Vec::new();
+        for (tp, w) in [("1+1", 2usize), ("2+1", 8), ("1+1", 0)] {
+            for (catchup, max_behind) in [(1usize, 10usize), (5, 1), (70, 59)] {
+                let lens: Vec<i32> = if t { (50..=75).collect() } else { vec![57, 59, 60, 61, 62, 63, 70] };
+                for len in lens {
+                    for polls in [false, true] {
+                        let mut s = base_scn("c03-spectator", tp, w, 0, false, Pred::RepeatLast, Program::Changing, 1);
+                        let mut sp = SpecSpec::new(20, s.peers[0].addr);
+                        sp.catchup = catchup;
+                        sp.max_behind = max_behind;
+                        sp.pauses = vec![(3, len)];
+                        sp.pause_polls = polls;
+                        s.specs.push(sp);
+                        s.name = format!("{} catchup={catchup} max_behind={max_behind} pause={len} polls={polls}", s.name);
+                        s.horizon = 3 + len + 2;
+                        s.probe = 80;
+                        s.checks = CK_CORE;
+                        scns.push(s);
+                    }
+                }
+            }
+            for every in [2, 3] {
+                let mut s = base_scn("c03-spectator-slow", tp, w, 0, false, Pred::RepeatLast, Program::Changing, 1);
+                let mut sp = SpecSpec::new(20, s.peers[0].addr);
+                sp.tick_every = every;
+                s.specs.push(sp);
+                s.name = format!("{} spectator-every={every}", s.name);
+                s.horizon = 200;
+                s.probe = 20;
+                s.checks = CK_CORE;
+                scns.push(s);
+            }
+        }
+        let mut deaths = crate::props::drop::death_scenarios("c03-spectator-death", &["1+1", "1+2"], &[0, 2], &[0], &[false], 60..66, 1, &[(100, 300)], &[true], crate::props::drop::CK_DROP);
+        scns.append(&mut deaths);
+        let n = scns.len();
+        let cfg = ExploreCfg { k: Some(0), wall: Duration::from_secs(if t { 600 } else { 30 }), ..Default::default() };
+        let out = explore(&scns, &cfg, &no_judge);
+        rep.absorb("F: inputs handed to spectators (pauses around the 60-slot ring, slow spectators, host-side drops after the ring has wrapped)", out, &["C03", "PANIC"], json!({"k": 0, "scenarios": n}));
+    }
     vacuity(&mut rep);
     rep.finish()
 }
